@@ -1,11 +1,54 @@
 import EpdVerif.Drivers.Dsl
 import EpdVerif.Gen.Epd7in5_hd
-/-! model of `src/epd7in5_hd/mod.rs` (STUB: programs not yet transcribed) -/
+/-! model of `src/epd7in5_hd/mod.rs` -/
 namespace EpdVerif.Drivers.Epd7in5_hd
 open EpdVerif
 open EpdVerif.Gen.Epd7in5_hd
 
-def prog (_f : Feat) (_d : DState) : Op → Option (List Act)
+def W : Act := .wait IS_BUSY_LOW
+
+def init : List Act :=
+  [.reset 10000 2000, W, .cmd Command.SwReset, W] ++
+  cmdData Command.AutoWriteRed [0xF7] ++ [W] ++
+  cmdData Command.AutoWriteBw [0xF7] ++ [W] ++
+  cmdData Command.SoftStart [0xAE, 0xC7, 0xC3, 0xC0, 0x40] ++
+  cmdData Command.DriverOutputControl [0xAF, 0x02, 0x01] ++
+  cmdData Command.DataEntry [0x01] ++
+  cmdData Command.SetRamXStartEnd [0x00, 0x00, 0x6F, 0x03] ++
+  cmdData Command.SetRamYStartEnd [0xAF, 0x02, 0x00, 0x00] ++
+  cmdData Command.VbdControl [0x05] ++
+  cmdData Command.TemperatureSensorControl [0x80] ++
+  cmdData Command.DisplayUpdateControl2 [0xB1] ++
+  [.cmd Command.MasterActivation, W] ++
+  cmdData Command.SetRamXAc [0x00, 0x00] ++
+  cmdData Command.SetRamYAc [0x00, 0x00]
+
+def updateFrame (b : Bytes) : List Act :=
+  [W] ++ cmdData Command.SetRamYAc [0x00, 0x00] ++ cmdData Command.WriteRamBw b ++
+  cmdData Command.DisplayUpdateControl2 [0xF7]
+
+def displayFrame : List Act := [.cmd Command.MasterActivation, W]
+
+def clearFrame (d : DState) : List Act :=
+  let pixelCount := WIDTH / 8 * HEIGHT
+  let v := byteValue d.bg
+  [W] ++ cmdData Command.SetRamYAc [0x00, 0x00] ++
+  [.cmd Command.WriteRamBw, .rep v pixelCount, .cmd Command.WriteRamRed, .rep v pixelCount] ++
+  cmdData Command.DisplayUpdateControl2 [0xF7] ++
+  [.cmd Command.MasterActivation, W]
+
+def prog (_f : Feat) (d : DState) : Op → Option (List Act)
+  | .new => some init
+  | .wake => some init
+  | .sleep => some ([W] ++ cmdData Command.DeepSleep [0x01])
+  | .upd b => some (updateFrame b)
+  | .part _ _ _ _ _ => some [.panic]
+  | .disp => some displayFrame
+  | .updisp b => some (updateFrame b ++ displayFrame)
+  | .clear => some (clearFrame d)
+  | .bg c => some [.upd (fun d => { d with bg := c })]
+  | .lut _ => some [.panic]
+  | .wait => some [W]
   | _ => none
 
 def panel (f : Feat) : Panel :=
